@@ -7,6 +7,6 @@ mkdir -p bin evidence replay
 ( cd harness && go build -o ../bin/gofail go.etcd.io/gofail )
 ( cd harness && go build -tags verif ./... )
 # race-detector builds used by the quick tier (C14, C17, C18, C20 and the sanitizer passes of C09, C10)
-( cd harness && go build -tags verif -race ./cmd/w_c09 ./cmd/w_c10 ./cmd/w_c14 ./cmd/w_c17 ./cmd/w_c18 ./cmd/w_c20 )
-rm -f harness/w_c09 harness/w_c10 harness/w_c14 harness/w_c17 harness/w_c18 harness/w_c20
+( cd harness && go build -tags verif -race ./cmd/w_c09 ./cmd/w_c10 ./cmd/w_c19 ./cmd/w_c14 ./cmd/w_c17 ./cmd/w_c18 ./cmd/w_c20 )
+rm -f harness/w_c09 harness/w_c10 harness/w_c19 harness/w_c14 harness/w_c17 harness/w_c18 harness/w_c20
 echo setup ok
